@@ -759,7 +759,8 @@ fn sync_wait(ctx: &Arc<RunCtx>, op: OpId, d: &Obj) {
 // ---------------------------------------------------------------------------------------------
 // Caller threads
 
-pub struct Held { fut: Option<ResFut<'static>>, _keep: Arc<Obj> }
+/// `_keep`: a future_sync future borrows its Desync; the futures of future_desync / after do not, and their owner may go away first
+pub struct Held { fut: Option<ResFut<'static>>, _keep: Option<Arc<Obj>> }
 
 pub struct ThreadLocalState {
     held:       std::collections::HashMap<OpId, Held>,
@@ -787,7 +788,7 @@ pub fn run_thread(ctx: &Arc<RunCtx>, acts: Vec<TAct>, mortal: Option<Arc<Obj>>) 
                         let fut = issue_future(ctx, op, &d);
                         // Safe: `_keep` owns the object the future borrows, and the future is always dropped first (field order + explicit take)
                         let fut: ResFut<'static> = unsafe { std::mem::transmute::<ResFut<'_>, ResFut<'static>>(fut) };
-                        tls.held.insert(op, Held { fut: Some(fut), _keep: d });
+                        tls.held.insert(op, Held { fut: Some(fut), _keep: if def.kind == Kind::FutSync { Some(d) } else { None } });
                     }
                     _ => issue_simple(ctx, op, &d),
                 }
